@@ -1,9 +1,10 @@
-(** The enumerator of a design of fragment F1 ([Frag.frag1]: one crossing of plain
-    factors, free plain factors, exclusions, constraints enforced by rejection):
-    every field of [make_enumerator] in closed form.  Proof file. *)
+(** The enumerator of a design of fragment F2 ([Frag.frag2]: one crossing of plain
+    factors - weighted or not -, free plain factors, exclusions, constraints
+    enforced by rejection): every field of [make_enumerator] in closed form (the
+    memo tables of the weighted counter up to validity).  Proof file. *)
 From Coq Require Import ZArith List Bool Arith Lia.
-From SP Require Import Design.Flat Design.Layout Comb.CombModel Random.Enum Random.Frag Random.RunLemmas.
-From SP Require Comb.CombSpec Comb.PermProofs.
+From SP Require Import Design.Flat Design.Layout Comb.CombModel Random.Enum Random.Frag Random.RunLemmas Random.FragPerm.
+From SP Require Comb.CombSpec Comb.PermProofs Comb.StackProofs Comb.SessionProofs.
 Import ListNotations.
 Open Scope nat_scope.
 Set Default Proof Using "All".
@@ -84,32 +85,68 @@ Qed.
 Lemma filter_map_comm {A B} (g : A -> B) (p : B -> bool) l : filter p (map g l) = map g (filter (fun x => p (g x)) l).
 Proof. induction l as [|x t IH]; [reflexivity|]. cbn. destruct (p (g x)); cbn; rewrite IH; reflexivity. Qed.
 
+Definition the_weight (fb : flat) : nat := match fl_weights fb with [w] => w | _ => 0 end.
+
+Lemma prodZl_fold_right l : prodZl l = fold_right Z.mul 1%Z l.
+Proof.
+  unfold prodZl. assert (G : forall acc, fold_left Z.mul l acc = (acc * fold_right Z.mul 1 l)%Z).
+  { induction l as [|x t IH]; intros acc; cbn [fold_left fold_right]; [lia|]. rewrite IH. lia. }
+  rewrite G. lia.
+Qed.
+
+Lemma combo_weight_Z fb di : Z.of_nat (combo_weight fb di) = combination_weight fb di.
+Proof.
+  unfold combination_weight. rewrite prodZl_fold_right. induction di as [|p t IH]; [reflexivity|].
+  cbn [combo_weight fold_right map]. fold (combo_weight fb t). rewrite Nat2Z.inj_mul, IH. f_equal.
+  unfold level_weight_nat, level_weight. destruct (nth_error (levels_of fb (fst p)) (snd p)); reflexivity.
+Qed.
+
+Lemma zsum_map_of_nat {A} (g : A -> nat) l : CombSpec.zsum (map (fun x => Z.of_nat (g x)) l) = Z.of_nat (list_sum (map g l)).
+Proof. induction l as [|x t IH]; [reflexivity|]. cbn [map CombSpec.zsum]. rewrite IH. unfold list_sum. cbn [fold_right]. lia. Qed.
+
+Lemma list_sum_scale {A} (g : A -> nat) k l : list_sum (map (fun x => g x * k) l) = list_sum (map g l) * k.
+Proof. induction l as [|x t IH]; [reflexivity|]. unfold list_sum in *. cbn [map fold_right]. rewrite IH. lia. Qed.
+
+Lemma rmap_zindex_ones {A} (l : list A) w ss :
+  rmap (zindex (map (fun _ => 1%Z) l)) w = ROk ss -> forall x, In x ss -> x = 1%Z.
+Proof.
+  intros H. apply rmap_ok_inv in H. induction H as [|p y w' ss' Hy Hrest IH]; intros x Hx; [destruct Hx|].
+  destruct Hx as [Hx | Hx]; [|apply IH; exact Hx]. subst y.
+  apply zindex_ok in Hy. destruct Hy as [_ Hy]. apply nth_error_In in Hy. apply in_map_iff in Hy.
+  destruct Hy as [? [E _]]. congruence.
+Qed.
+
 Section F0.
 Variable fb : flat.
-Hypothesis HF : frag1 fb = true.
+Hypothesis HF : frag2 fb = true.
 
 Local Notation c := (the_crossing fb).
 Local Notation n := (length (fl_design fb)).
+Local Notation w := (the_weight fb).
 (** the admitted level combinations of the crossing, and the admitted levels of a factor *)
 Definition f0_cprod : list (list nat) := allowed_combos fb (the_crossing fb).
 Definition f0_q : nat := length f0_cprod.
 Definition f0_L (g : nat) : list nat := nonexcluded_levels fb g.
+(** the weight of a combination, the block's crossing size and the length of a round *)
+Definition f0_cw (ls : list nat) : nat := combo_weight fb (combine (the_crossing fb) ls).
+Definition f0_s : nat := list_sum (map f0_cw f0_cprod).
+Definition f0_C : nat := f0_s * the_weight fb.
 
 Record f0_facts : Prop := {
   f0_crossings : fl_crossings fb = [c];
   f0_sustains : fl_sustains fb = [1];
-  f0_weights : fl_weights fb = [1];
+  f0_weights : fl_weights fb = [w];
+  f0_wpos : 0 < w;
   f0_preambles : fl_preambles fb = [0];
   f0_alpre : fl_alignment_preamble fb = 0;
-  f0_sizes : fl_sizes fb = [f0_q];
-  f0_qpos : 0 < f0_q;
+  f0_sizes : fl_sizes fb = [f0_s];
+  f0_spos : 0 < f0_s;
   f0_nodup : NoDup c;
   f0_range : forall f, In f c -> f < n;
   f0_exclude : fl_exclude fb = flat_map (fun k => match k with FExclude f l => [(f, l)] | _ => [] end) (fl_constraints fb);
   f0_excluded_derived : fl_excluded_derived fb = [];
   f0_act : fl_act fb = seq 0 n;
   f0_basic : forall fd, In fd (fl_design fb) -> ff_window fd = None /\ ff_complex fd = false;
-  f0_unit : forall f lv, In f c -> In lv (levels_of fb f) -> lv_weight lv = 1;
   f0_constraints : forall k, In k (fl_constraints fb) -> constraint_f1 fb k = true;
   f0_nonempty : forall f, f < n -> 0 < length (f0_L f);
   f0_trials : 0 < fl_trials fb \/ no_rejecting_constraints fb = true
@@ -117,7 +154,7 @@ Record f0_facts : Prop := {
 
 Lemma f0_unpack : f0_facts.
 Proof.
-  unfold frag1 in HF.
+  unfold frag2 in HF.
   apply andb_prop in HF. destruct HF as [HFT HTpos].
   apply andb_prop in HFT. destruct HFT as [HF0 Hne].
   apply andb_prop in HF0. destruct HF0 as [HF1 Hsize].
@@ -127,21 +164,20 @@ Proof.
   apply andb_prop in HF4. destruct HF4 as [HF5 Hact].
   apply andb_prop in HF5. destruct HF5 as [HF6 Hexcl].
   apply andb_prop in HF6. destruct HF6 as [Hcross Hcons].
-  unfold single_plain_crossing in Hcross. unfold size_matches1 in Hsize. unfold unit_weights in Hunit.
+  unfold single_plain_crossing in Hcross. unfold size_matches2 in Hsize. unfold weights_ok in Hunit.
   unfold plain_geometry in Hgeo. unfold exclude_consistent in Hexcl.
-  unfold f0_q, f0_cprod, the_crossing.
+  unfold f0_s, f0_cw, f0_q, f0_cprod, the_crossing, the_weight.
   destruct (fl_crossings fb) as [|c0 [|? ?]] eqn:Ec; try discriminate.
   destruct (fl_sustains fb) as [|[|[|?]] [|? ?]] eqn:Es; try discriminate.
   apply andb_prop in Hcross. destruct Hcross as [Hnd Hrange].
-  apply andb_prop in Hunit. destruct Hunit as [Hw Hlv].
-  destruct (fl_weights fb) as [|[|[|?]] [|? ?]] eqn:Ew; try discriminate.
+  destruct (fl_weights fb) as [|w0 [|? ?]] eqn:Ew; try discriminate.
   destruct (fl_preambles fb) as [|[|?] [|? ?]] eqn:Ep; try discriminate.
   destruct (fl_sizes fb) as [|s0 [|? ?]] eqn:Ez; try discriminate.
   apply andb_prop in Hexcl. destruct Hexcl as [Hex1 Hex2].
   destruct (fl_excluded_derived fb) eqn:Eed; try discriminate.
   apply andb_prop in Hsize. destruct Hsize as [Hsize Hpos].
-  apply Nat.eqb_eq in Hgeo. apply Nat.eqb_eq in Hsize. apply Nat.ltb_lt in Hpos. subst s0.
-  constructor; unfold f0_q, f0_cprod, the_crossing; rewrite ?Ec; try reflexivity; try assumption.
+  apply Nat.eqb_eq in Hgeo. apply Nat.eqb_eq in Hsize. apply Nat.ltb_lt in Hpos. apply Nat.ltb_lt in Hunit. subst s0.
+  constructor; unfold f0_s, f0_cw, f0_q, f0_cprod, the_crossing, the_weight; rewrite ?Ec, ?Ew; try reflexivity; try assumption.
   - apply nodupb_NoDup. exact Hnd.
   - intros f Hf. rewrite forallb_forall in Hrange. apply Nat.ltb_lt. apply Hrange. exact Hf.
   - apply pairs_eqb_eq. exact Hex1.
@@ -149,8 +185,6 @@ Proof.
   - intros fd Hfd. unfold all_basic in Hbasic. rewrite forallb_forall in Hbasic.
     specialize (Hbasic fd Hfd). destruct (ff_window fd); [discriminate|].
     apply negb_true_iff in Hbasic. auto.
-  - intros f lv Hf Hlvin. cbn in Hlv. rewrite andb_true_r in Hlv. rewrite forallb_forall in Hlv.
-    specialize (Hlv f Hf). rewrite forallb_forall in Hlv. apply Nat.eqb_eq. apply Hlv. exact Hlvin.
   - intros k Hk. rewrite forallb_forall in Hcons. apply Hcons. exact Hk.
   - intros f Hf. unfold free_levels_nonempty in Hne. rewrite forallb_forall in Hne.
     apply Nat.ltb_lt. apply Hne. apply in_seq. lia.
@@ -158,7 +192,13 @@ Proof.
 Qed.
 
 Lemma f0_q_pos : 0 < f0_q.
-Proof. apply (f0_qpos f0_unpack). Qed.
+Proof.
+  pose proof (f0_spos f0_unpack) as H. unfold f0_s in H. unfold f0_q.
+  destruct f0_cprod; [cbn in H; lia | cbn; lia].
+Qed.
+
+Lemma f0_C_pos : 0 < f0_C.
+Proof. unfold f0_C. pose proof (f0_spos f0_unpack). pose proof (f0_wpos f0_unpack). nia. Qed.
 
 Lemma f0_window_none f : window_of fb f = None.
 Proof.
@@ -239,22 +279,41 @@ Qed.
 Lemma f0_L_nodup g : NoDup (f0_L g).
 Proof. unfold f0_L, nonexcluded_levels. apply NoDup_filter. unfold all_levels. apply seq_NoDup. Qed.
 
-(** level weights of crossed factors *)
-Lemma f0_level_weight f l : In f c -> level_weight fb f l = 1%Z.
+(** ** the multiset of a round: how often each crossing instance occurs *)
+Definition f0_cws : list Z := map (fun ci => (combination_weight fb ci * Z.of_nat (the_weight fb))%Z) f0_instances.
+
+Lemma f0_cws_eq : f0_cws = map (fun ls => Z.of_nat (f0_cw ls * w)) f0_cprod.
 Proof.
-  intros Hf. unfold level_weight. destruct (nth_error (levels_of fb f) l) as [lv|] eqn:E; [|reflexivity].
-  apply nth_error_In in E. rewrite (f0_unit f0_unpack f lv Hf E). reflexivity.
+  unfold f0_cws, f0_instances. rewrite map_map. apply map_ext. intros ls.
+  unfold f0_cw. rewrite Nat2Z.inj_mul, combo_weight_Z. reflexivity.
 Qed.
 
-Lemma f0_combination_weight ci : In ci f0_instances -> combination_weight fb ci = 1%Z.
+Lemma f0_cws_length : length f0_cws = f0_q.
+Proof. unfold f0_cws. rewrite map_length. apply f0_instances_length. Qed.
+
+Lemma f0_cws_nonneg : Forall (fun x => (0 <= x)%Z) f0_cws.
+Proof. rewrite f0_cws_eq. apply Forall_forall. intros x Hx. apply in_map_iff in Hx. destruct Hx as [? [E _]]. lia. Qed.
+
+Lemma f0_cws_sum : CombSpec.zsum f0_cws = Z.of_nat f0_C.
 Proof.
-  intros H. unfold f0_instances in H. apply in_map_iff in H. destruct H as [ls [E _]]. subst ci.
-  unfold combination_weight. apply prodZl_ones. intros x Hx. apply in_map_iff in Hx.
-  destruct Hx as [p [E Hp]]. subst x. apply f0_level_weight. eapply in_combine_fst. exact Hp.
+  rewrite f0_cws_eq. rewrite (zsum_map_of_nat (fun ls => f0_cw ls * w)). rewrite list_sum_scale. reflexivity.
 Qed.
 
-Lemma f0_cweights : map (fun ci => (combination_weight fb ci * 1)%Z) f0_instances = map (fun _ => 1%Z) f0_instances.
-Proof. apply map_ext_in. intros ci H. rewrite f0_combination_weight by exact H. reflexivity. Qed.
+Lemma f0_p_C : p_C f0_cws = f0_C.
+Proof. unfold p_C. rewrite f0_cws_sum. lia. Qed.
+
+Lemma f0_cws_nth j : j < f0_q -> nth j f0_cws 0%Z = Z.of_nat (f0_cw (nth j f0_cprod []) * w).
+Proof.
+  intros Hj. rewrite f0_cws_eq.
+  rewrite (nth_indep _ 0%Z ((fun ls => Z.of_nat (f0_cw ls * w)) [])) by (rewrite map_length; exact Hj).
+  apply (map_nth (fun ls => Z.of_nat (f0_cw ls * w))).
+Qed.
+
+Definition f0_unw : bool := p_unw f0_cws.
+Definition f0_N (first_n : nat) : Z := p_N f0_cws first_n.
+
+Lemma f0_unw_C : f0_unw = true -> f0_C = f0_q.
+Proof. intros H. rewrite <- f0_p_C, <- f0_cws_length. apply unw_C. exact H. Qed.
 
 Lemma f0_main_factors : main_factors fb 0 = ROk c.
 Proof. unfold main_factors, no_crossings. rewrite (f0_crossings f0_unpack). reflexivity. Qed.
@@ -305,7 +364,7 @@ Qed.
 Lemma f0_derived_factors : derived_factors fb = [].
 Proof. unfold derived_factors. apply filter_none. intros f _. apply f0_not_derived. Qed.
 
-Lemma f0_block_weight : block_crossing_weight fb c = ROk 1%Z.
+Lemma f0_block_weight : block_crossing_weight fb c = ROk (Z.of_nat w).
 Proof.
   unfold block_crossing_weight. rewrite (f0_crossings f0_unpack). cbn [first_index_of].
   rewrite nat_list_eqb_refl. rewrite (f0_weights f0_unpack). reflexivity.
@@ -317,12 +376,14 @@ Proof.
   rewrite (f0_preambles f0_unpack), (f0_alpre f0_unpack). destruct (fl_alignment fb); reflexivity.
 Qed.
 
+Definition f0_moc : moc := if f0_unw then Uniform 1 else Counters f0_cws.
+
 Definition f0_base : enum_base :=
   {| eb_main := 0; eb_mf := c; eb_cnc := c; eb_instances := f0_instances;
-     eb_cweights := map (fun _ => 1%Z) f0_instances; eb_unweighted := true;
-     eb_sources := [[]]; eb_src_factors := []; eb_m := 1%Z; eb_csize := Z.of_nat f0_q;
-     eb_moc := Uniform 1; eb_sorted_derived := []; eb_sorted_ucd := []; eb_has_cc := false;
-     eb_crossing_sizes := [Z.of_nat f0_q]; eb_preamble_sizes := [0%Z]; eb_crossing_weights := [1%Z];
+     eb_cweights := f0_cws; eb_unweighted := f0_unw;
+     eb_sources := [[]]; eb_src_factors := []; eb_m := 1%Z; eb_csize := Z.of_nat f0_C;
+     eb_moc := f0_moc; eb_sorted_derived := []; eb_sorted_ucd := []; eb_has_cc := false;
+     eb_crossing_sizes := [Z.of_nat f0_s]; eb_preamble_sizes := [0%Z]; eb_crossing_weights := [Z.of_nat w];
      eb_preamble := 0%Z |}.
 
 Lemma f0_enum_base : enum_base_of fb = ROk f0_base.
@@ -330,13 +391,17 @@ Proof.
   unfold enum_base_of. unfold main_crossing. rewrite (f0_sustains f0_unpack). cbn [find_main Nat.eqb rbind].
   rewrite f0_main_factors. cbn [rbind]. rewrite f0_cnc, f0_crossing_instances.
   unfold no_crossings. rewrite (f0_crossings f0_unpack). rewrite f0_block_weight. cbn [rbind].
-  rewrite f0_cweights. rewrite forallb_ones. rewrite fold_add_ones. rewrite f0_instances_length.
+  fold f0_cws. change (forallb (Z.eqb 1) f0_cws) with f0_unw.
+  rewrite fold_add_zsum, f0_cws_sum.
   rewrite f0_ubs. rewrite f0_crossed_complex. cbn [count_complex_crossing_instances].
   cbn [length seq rmap]. rewrite f0_block_preamble. cbn [rbind rmap]. rewrite f0_block_weight. cbn [rbind].
   rewrite (f0_sizes f0_unpack). cbn [map nth_error of_opt rbind].
-  replace (Z.of_nat f0_q * 1 =? (0 + Z.of_nat f0_q) * 1)%Z with true by (symmetry; apply Z.eqb_eq; lia).
+  replace (Z.of_nat f0_s * Z.of_nat w =? (0 + Z.of_nat f0_C) * 1)%Z with true
+    by (symmetry; apply Z.eqb_eq; unfold f0_C; lia).
   cbn [rbind]. rewrite f0_derived_factors, f0_ucd. cbn [stable_sort fold_right].
-  unfold f0_base. f_equal. f_equal; try reflexivity; try lia.
+  assert (Hmap : map (fun x : Z => (x * 1)%Z) f0_cws = f0_cws).
+  { rewrite <- (map_id f0_cws) at 2. apply map_ext. intros x. lia. }
+  rewrite Hmap. unfold f0_base, f0_moc. f_equal. f_equal; try reflexivity; try lia.
 Qed.
 
 (** ** solution counting *)
@@ -348,36 +413,55 @@ Proof.
 Qed.
 
 Definition f0_inds (first_n : Z) : list Z := map (fun f => (Z.of_nat (length (f0_L f)) ^ first_n)%Z) f0_ubi.
-Definition f0_perms (first_n : nat) : Z := CombSpec.ffact (Z.of_nat f0_q) first_n.
 Definition f0_shape (first_n : nat) : shape :=
-  {| sh_cross := f0_perms first_n; sh_combs := map (fun _ => 1%Z) f0_instances; sh_inds := f0_inds (Z.of_nat first_n) |}.
+  {| sh_cross := f0_N first_n; sh_combs := map (fun _ => 1%Z) f0_instances; sh_inds := f0_inds (Z.of_nat first_n) |}.
 
 Lemma f0_perms_div (first_n : nat) : first_n <= f0_q ->
-  (fact_nat f0_q / fact_nat (f0_q - first_n))%Z = f0_perms first_n.
+  (fact_nat f0_q / fact_nat (f0_q - first_n))%Z = CombSpec.ffact (Z.of_nat f0_q) first_n.
 Proof.
-  intros H. unfold f0_perms. pose proof (PermProofs.ffact_fact f0_q first_n H) as E.
+  intros H. pose proof (PermProofs.ffact_fact f0_q first_n H) as E.
   rewrite <- E. apply Z.div_mul. pose proof (fact_nat_pos (f0_q - first_n)). lia.
 Qed.
 
-Lemma f0_count_solutions (first_n : nat) : first_n <= f0_q -> 0 < f0_q ->
-  count_solutions fb f0_base (Z.of_nat first_n) [] (map (fun _ => [0]) f0_instances) =
-  ROk ((f0_perms first_n * prodZl (f0_inds (Z.of_nat first_n)))%Z, f0_shape first_n, []).
+Lemma f0_N_unw first_n : f0_unw = true -> f0_N first_n = CombSpec.ffact (Z.of_nat f0_q) first_n.
+Proof. intros H. unfold f0_N, p_N. fold f0_unw. rewrite H, f0_cws_length. reflexivity. Qed.
+
+Lemma f0_N_w first_n : f0_unw = false -> f0_N first_n = cnt f0_cws (Z.of_nat first_n).
+Proof. intros H. unfold f0_N, p_N. fold f0_unw. rewrite H. reflexivity. Qed.
+
+(** a memo table the weighted counter may use *)
+Definition f0_memo_ok (memo : memo_t) : Prop :=
+  f0_unw = false -> StackProofs.memo_valid (Z.of_nat f0_q) (Counters f0_cws) memo.
+
+Lemma f0_memo_nil : f0_memo_ok [].
+Proof. intros _. apply StackProofs.memo_valid_nil. Qed.
+
+Lemma f0_params_ok : StackProofs.params_ok (Z.of_nat f0_q) (Counters f0_cws).
+Proof. split; cbn [StackProofs.cs_of]; [rewrite f0_cws_length; reflexivity | apply f0_cws_nonneg]. Qed.
+
+Lemma f0_combs_eq : map (fun l : list nat => Z.of_nat (length l)) (map (fun _ : asg => [0]) f0_instances)
+                    = map (fun _ => 1%Z) f0_instances.
+Proof. rewrite map_map. reflexivity. Qed.
+
+(** without weights: total, the memo table is not touched *)
+Lemma f0_count_solutions_unw (first_n : nat) memo : f0_unw = true -> first_n <= f0_C ->
+  count_solutions fb f0_base (Z.of_nat first_n) memo (map (fun _ => [0]) f0_instances) =
+  ROk ((f0_N first_n * prodZl (f0_inds (Z.of_nat first_n)))%Z, f0_shape first_n, memo).
 Proof.
-  intros Hle Hq. unfold count_solutions, q_instances. cbn [eb_m eb_unweighted eb_instances f0_base].
-  rewrite f0_instances_length. cbn [Z.eqb andb Pos.eqb].
+  intros Hu Hle. rewrite (f0_unw_C Hu) in Hle. pose proof f0_q_pos as Hq.
+  unfold count_solutions, q_instances. cbn [eb_m eb_unweighted eb_instances f0_base].
+  rewrite f0_instances_length. rewrite Hu. cbn [Z.eqb andb Pos.eqb].
   replace (Z.of_nat f0_q * 1)%Z with (Z.of_nat f0_q) by lia.
   unfold factorial. replace (Z.of_nat f0_q <? 0)%Z with false by (symmetry; apply Z.ltb_ge; lia).
   cbn [lift rbind]. rewrite Nat2Z.id.
-  assert (Hcombs : map (fun l : list nat => Z.of_nat (length l)) (map (fun _ : asg => [0]) f0_instances)
-                   = map (fun _ => 1%Z) f0_instances).
-  { rewrite map_map. reflexivity. }
-  rewrite Hcombs. cbn [eb_mf f0_base]. rewrite f0_ubi_eq.
+  rewrite f0_combs_eq. cbn [eb_mf f0_base]. rewrite f0_ubi_eq.
   change (map (fun f => (Z.of_nat (length (nonexcluded_levels fb f)) ^ Z.of_nat first_n)%Z) f0_ubi)
     with (f0_inds (Z.of_nat first_n)).
+  unfold f0_shape. rewrite (f0_N_unw first_n Hu).
   destruct (Z.of_nat first_n =? Z.of_nat f0_q)%Z eqn:E.
   - apply Z.eqb_eq in E. apply Nat2Z.inj in E. subst first_n. cbn [rbind andb].
     rewrite prodZl_ones by (intros x Hx; apply in_map_iff in Hx; destruct Hx as [? [? _]]; congruence).
-    unfold f0_shape. rewrite <- f0_perms_div by lia. rewrite Nat.sub_diag. cbn [fact_nat].
+    rewrite <- f0_perms_div by lia. rewrite Nat.sub_diag. cbn [fact_nat].
     rewrite Z.div_1_r, Z.mul_1_r. reflexivity.
   - apply Z.eqb_neq in E.
     replace (Z.of_nat f0_q - Z.of_nat first_n <? 0)%Z with false by (symmetry; apply Z.ltb_ge; lia).
@@ -385,42 +469,136 @@ Proof.
     pose proof (fact_nat_pos (f0_q - first_n)) as Hpos.
     replace (fact_nat (f0_q - first_n) =? 0)%Z with false by (symmetry; apply Z.eqb_neq; lia).
     cbn [rbind andb]. rewrite f0_perms_div by lia.
-    unfold sum_combination_products. cbn [eb_moc f0_base]. rewrite all_equal_ones. cbn [andb].
+    unfold sum_combination_products. cbn [eb_moc f0_base]. unfold f0_moc. rewrite Hu. rewrite all_equal_ones. cbn [andb].
     destruct f0_instances as [|i0 rest] eqn:Ei.
     { exfalso. pose proof f0_instances_length as Hl. rewrite Ei in Hl. cbn in Hl. lia. }
     cbn [map zindex Z.ltb Z.compare Z.to_nat nth_error of_opt rbind].
-    rewrite Z.pow_1_l by lia. rewrite Z.mul_1_r. unfold f0_shape. rewrite Ei. reflexivity.
+    rewrite Z.pow_1_l by lia. rewrite Z.mul_1_r. reflexivity.
 Qed.
 
-Definition f0_leftover : nat := fl_trials fb mod f0_q.
-Definition f0_rounds : nat := fl_trials fb / f0_q.
+(** with weights: what a successful run of the memoised counter returns *)
+Lemma scp_loop_inv first_n : f0_unw = false -> forall cntn i memo s r,
+  StackProofs.memo_valid (Z.of_nat f0_q) (Counters f0_cws) memo ->
+  (0 <= i)%Z -> (i + Z.of_nat cntn <= cnt f0_cws (Z.of_nat first_n))%Z ->
+  scp_loop f0_base cntn i (Z.of_nat first_n) (map (fun _ => 1%Z) f0_instances) memo s = ROk r ->
+  fst r = (s + Z.of_nat cntn)%Z /\ StackProofs.memo_valid (Z.of_nat f0_q) (Counters f0_cws) (snd r).
+Proof.
+  intros Hu. induction cntn as [|k IH]; intros i memo s r Hval Hi Hb Hrun.
+  - cbn [scp_loop] in Hrun. inversion Hrun; subst r. cbn [fst snd]. split; [lia | exact Hval].
+  - cbn [scp_loop] in Hrun. unfold q_instances in Hrun. cbn [eb_instances eb_moc f0_base] in Hrun.
+    rewrite f0_instances_length in Hrun. unfold f0_moc in Hrun. rewrite Hu in Hrun.
+    destruct (compute_jth_prefix_of_permutations_with_copies (Z.of_nat f0_q) (Counters f0_cws) (Z.of_nat first_n) i memo)
+      as [[v memo']|e] eqn:Ec; [|discriminate]. cbn [lift rbind] in Hrun.
+    assert (Hrange : (0 <= i < cnt (StackProofs.cs_of (Z.of_nat f0_q) (Counters f0_cws)) (Z.of_nat first_n))%Z)
+      by (cbn [StackProofs.cs_of]; lia).
+    destruct (SessionProofs.unrank_dispatch_refines (Z.of_nat f0_q) (Counters f0_cws) (Z.of_nat first_n) memo i v memo'
+                f0_params_ok ltac:(lia) Hval Hrange Ec) as [(wd & Hv & _) Hval'].
+    subst v. cbn [kperm fst rbind snd] in Hrun.
+    destruct (rmap (zindex (map (fun _ : asg => 1%Z) f0_instances)) wd) as [ss|e] eqn:Ess; [|discriminate].
+    cbn [rbind] in Hrun. rewrite (prodZl_ones ss (rmap_zindex_ones _ _ _ Ess)) in Hrun.
+    destruct (IH (i + 1)%Z memo' (s + 1)%Z r Hval' ltac:(lia) ltac:(lia) Hrun) as [H1 H2].
+    split; [lia | exact H2].
+Qed.
 
-Definition f0_enum : enumerator :=
+Lemma f0_count_solutions_w (first_n : nat) memo r : f0_unw = false ->
+  StackProofs.memo_valid (Z.of_nat f0_q) (Counters f0_cws) memo ->
+  count_solutions fb f0_base (Z.of_nat first_n) memo (map (fun _ => [0]) f0_instances) = ROk r ->
+  exists memo', r = ((f0_N first_n * prodZl (f0_inds (Z.of_nat first_n)))%Z, f0_shape first_n, memo') /\
+                StackProofs.memo_valid (Z.of_nat f0_q) (Counters f0_cws) memo'.
+Proof.
+  intros Hu Hval Hrun. pose proof f0_q_pos as Hq.
+  unfold count_solutions, q_instances in Hrun. cbn [eb_m eb_unweighted eb_instances eb_moc f0_base] in Hrun.
+  rewrite f0_instances_length in Hrun. rewrite Hu in Hrun. cbn [Z.eqb andb Pos.eqb] in Hrun.
+  rewrite andb_false_r in Hrun. unfold f0_moc in Hrun. rewrite Hu in Hrun.
+  destruct (count_prefixes_of_permutations_with_copies (Z.of_nat f0_q) (Counters f0_cws) (Z.of_nat first_n) memo)
+    as [[v memo1]|e] eqn:Ec; [|discriminate]. cbn [lift rbind] in Hrun.
+  destruct (SessionProofs.count_dispatch_refines (Z.of_nat f0_q) (Counters f0_cws) (Z.of_nat first_n) memo v memo1
+              f0_params_ok ltac:(lia) Hval Ec) as [Hv Hval1].
+  cbn [StackProofs.cs_of] in Hv. subst v. cbn [kcount fst rbind snd] in Hrun.
+  rewrite f0_combs_eq in Hrun. cbn [eb_mf f0_base] in Hrun. rewrite f0_ubi_eq in Hrun.
+  change (map (fun f => (Z.of_nat (length (nonexcluded_levels fb f)) ^ Z.of_nat first_n)%Z) f0_ubi)
+    with (f0_inds (Z.of_nat first_n)) in Hrun.
+  unfold sum_combination_products in Hrun. cbn [eb_moc f0_base] in Hrun. unfold f0_moc in Hrun. rewrite Hu in Hrun.
+  rewrite all_equal_ones in Hrun. cbn [andb] in Hrun.
+  unfold f0_shape. rewrite (f0_N_w first_n Hu).
+  destruct (all_equal_Z f0_cws).
+  - destruct f0_instances as [|i0 rest] eqn:Ei.
+    { exfalso. pose proof f0_instances_length as Hl. rewrite Ei in Hl. cbn in Hl. lia. }
+    cbn [map zindex Z.ltb Z.compare Z.to_nat nth_error of_opt rbind] in Hrun.
+    rewrite Z.pow_1_l in Hrun by lia. rewrite Z.mul_1_r in Hrun. inversion Hrun; subst r.
+    exists memo1. split; [reflexivity | exact Hval1].
+  - destruct (scp_loop f0_base (Z.to_nat (cnt f0_cws (Z.of_nat first_n))) 0 (Z.of_nat first_n)
+                       (map (fun _ : asg => 1%Z) f0_instances) memo1 0) as [[s' memo2]|e] eqn:Es; [|discriminate].
+    cbn [rbind] in Hrun. inversion Hrun; subst r.
+    pose proof (PrefixProofs.cnt_nonneg f0_cws (Z.of_nat first_n)) as Hnn.
+    destruct (scp_loop_inv first_n Hu (Z.to_nat (cnt f0_cws (Z.of_nat first_n))) 0%Z memo1 0%Z (s', memo2) Hval1
+                ltac:(lia) ltac:(lia) Es) as [H1 H2]. cbn [fst snd] in H1, H2.
+    exists memo2. split; [|exact H2]. rewrite H1. rewrite Z2Nat.id by lia. reflexivity.
+Qed.
+
+Definition f0_leftover : nat := fl_trials fb mod f0_C.
+Definition f0_rounds : nat := fl_trials fb / f0_C.
+
+Definition f0_enum (m lm : memo_t) : enumerator :=
   {| en_base := f0_base; en_valid := map (fun _ => [0]) f0_instances;
      en_ind_levels := map (fun f => (f, f0_L f)) f0_ubi;
-     en_count := (f0_perms f0_q * prodZl (f0_inds (Z.of_nat f0_q)))%Z; en_shape := f0_shape f0_q; en_memo := [];
+     en_count := (f0_N f0_C * prodZl (f0_inds (Z.of_nat f0_C)))%Z; en_shape := f0_shape f0_C; en_memo := m;
      en_leftover := Z.of_nat f0_leftover;
-     en_lcount := if f0_leftover =? 0 then 1%Z else (f0_perms f0_leftover * prodZl (f0_inds (Z.of_nat f0_leftover)))%Z;
+     en_lcount := if f0_leftover =? 0 then 1%Z else (f0_N f0_leftover * prodZl (f0_inds (Z.of_nat f0_leftover)))%Z;
      en_lshape := if f0_leftover =? 0 then {| sh_cross := 0; sh_combs := []; sh_inds := [] |} else f0_shape f0_leftover;
-     en_lmemo := [];
+     en_lmemo := lm;
      en_basic_levels := []; en_pcount := 1%Z |}.
 
-Lemma f0_make_enumerator : 0 < f0_q -> make_enumerator fb = ROk f0_enum.
+Lemma f0_leftover_lt : f0_leftover < f0_C.
+Proof. unfold f0_leftover. apply Nat.mod_upper_bound. pose proof f0_C_pos. lia. Qed.
+
+(** without weights the enumerator is total *)
+Lemma f0_make_enumerator_unw : f0_unw = true -> make_enumerator fb = ROk (f0_enum [] []).
 Proof.
-  intros Hq. unfold make_enumerator. rewrite f0_enum_base. cbn [rbind].
+  intros Hu. pose proof f0_C_pos as HC. unfold make_enumerator. rewrite f0_enum_base. cbn [rbind].
   rewrite f0_valid_sources. cbn [rbind]. cbn [eb_csize f0_base].
-  rewrite (f0_count_solutions f0_q) by lia. cbn [rbind].
-  replace (Z.of_nat f0_q =? 0)%Z with false by (symmetry; apply Z.eqb_neq; lia).
+  rewrite (f0_count_solutions_unw f0_C [] Hu (le_n _)). cbn [rbind].
+  replace (Z.of_nat f0_C =? 0)%Z with false by (symmetry; apply Z.eqb_neq; lia).
   cbn [rbind eb_preamble f0_base]. unfold trials_Z. rewrite Z.sub_0_r.
-  assert (Hmod : (Z.of_nat (fl_trials fb) mod Z.of_nat f0_q)%Z = Z.of_nat f0_leftover).
+  assert (Hmod : (Z.of_nat (fl_trials fb) mod Z.of_nat f0_C)%Z = Z.of_nat f0_leftover).
   { unfold f0_leftover. rewrite Nat2Z.inj_mod. reflexivity. }
-  rewrite Hmod.
-  assert (Hlo : f0_leftover < f0_q) by (unfold f0_leftover; apply Nat.mod_upper_bound; lia).
+  rewrite Hmod. pose proof f0_leftover_lt as Hlo.
   unfold f0_enum. destruct (f0_leftover =? 0) eqn:E.
   - apply Nat.eqb_eq in E. rewrite E. cbn [Z.of_nat Z.eqb rbind]. cbn [eb_mf f0_base]. rewrite f0_ubi_eq. reflexivity.
   - apply Nat.eqb_neq in E.
     replace (Z.of_nat f0_leftover =? 0)%Z with false by (symmetry; apply Z.eqb_neq; lia).
-    rewrite (f0_count_solutions f0_leftover) by lia. cbn [rbind eb_mf f0_base]. rewrite f0_ubi_eq. reflexivity.
+    rewrite (f0_count_solutions_unw f0_leftover [] Hu) by lia. cbn [rbind eb_mf f0_base]. rewrite f0_ubi_eq. reflexivity.
+Qed.
+
+(** in general: what a successful construction returns *)
+Lemma f0_make_enumerator_inv en : make_enumerator fb = ROk en ->
+  exists m lm, en = f0_enum m lm /\ f0_memo_ok m /\ f0_memo_ok lm.
+Proof.
+  intros Hrun. destruct f0_unw eqn:Hu.
+  { rewrite (f0_make_enumerator_unw Hu) in Hrun. inversion Hrun; subst en.
+    exists [], []. split; [reflexivity|]. split; apply f0_memo_nil. }
+  pose proof f0_C_pos as HC. unfold make_enumerator in Hrun. rewrite f0_enum_base in Hrun. cbn [rbind] in Hrun.
+  rewrite f0_valid_sources in Hrun. cbn [rbind] in Hrun. cbn [eb_csize f0_base] in Hrun.
+  destruct (count_solutions fb f0_base (Z.of_nat f0_C) [] (map (fun _ : asg => [0]) f0_instances)) as [r1|e] eqn:E1; [|discriminate].
+  destruct (f0_count_solutions_w f0_C [] r1 Hu (StackProofs.memo_valid_nil _ _) E1) as [m [-> Hm]].
+  cbn [rbind] in Hrun.
+  replace (Z.of_nat f0_C =? 0)%Z with false in Hrun by (symmetry; apply Z.eqb_neq; lia).
+  cbn [rbind eb_preamble f0_base] in Hrun. unfold trials_Z in Hrun. rewrite Z.sub_0_r in Hrun.
+  assert (Hmod : (Z.of_nat (fl_trials fb) mod Z.of_nat f0_C)%Z = Z.of_nat f0_leftover).
+  { unfold f0_leftover. rewrite Nat2Z.inj_mod. reflexivity. }
+  rewrite Hmod in Hrun. pose proof f0_leftover_lt as Hlo.
+  destruct (f0_leftover =? 0) eqn:E.
+  - apply Nat.eqb_eq in E. rewrite E in Hrun. cbn [Z.of_nat Z.eqb rbind] in Hrun. cbn [eb_mf f0_base] in Hrun.
+    rewrite f0_ubi_eq in Hrun. inversion Hrun; subst en. exists m, []. split.
+    + unfold f0_enum. rewrite E. reflexivity.
+    + split; [intros _; exact Hm | apply f0_memo_nil].
+  - apply Nat.eqb_neq in E.
+    replace (Z.of_nat f0_leftover =? 0)%Z with false in Hrun by (symmetry; apply Z.eqb_neq; lia).
+    destruct (count_solutions fb f0_base (Z.of_nat f0_leftover) [] (map (fun _ : asg => [0]) f0_instances)) as [r2|e] eqn:E2; [|discriminate].
+    destruct (f0_count_solutions_w f0_leftover [] r2 Hu (StackProofs.memo_valid_nil _ _) E2) as [lm [-> Hlm]].
+    cbn [rbind eb_mf f0_base] in Hrun. rewrite f0_ubi_eq in Hrun. inversion Hrun; subst en. exists m, lm. split.
+    + unfold f0_enum. replace (f0_leftover =? 0) with false by (symmetry; apply Nat.eqb_neq; exact E). reflexivity.
+    + split; intros _; assumption.
 Qed.
 
 End F0.
